@@ -6,11 +6,11 @@ Tie part:   every input runs in an isolated child of harness/src/bin/c13.rs (cou
             (class, error kind, decoded value, peak-allocation meter); all other decoders are exploration
             (oracle only: outcome must be value|error and peak <= C*len + C0).
 """
-import os, json, struct, collections
+import os, json, struct, collections, time
 import vf
 
 PROP = "C13"
-THEOREMS = ["dec_terminates", "dec_panic_only_capacity", "dec_no_panic", "dec_alloc_linear", "dec_depth_bounded", "guard_transparent",
+THEOREMS = ["dec_terminates", "dec_panic_only_capacity", "dec_no_panic", "dec_alloc_linear", "dec_depth_bounded", "guard_transparent", "guard_only_removes",
             "dec_no_panic_refuted", "dec_alloc_linear_refuted", "dec_depth_bounded_refuted", "repo_cfg_known",
             "wsc_read_no_panic", "wsc_read_exact"]
 PRE = ("From Coq Require Import List NArith ZArith.\nFrom Echo Require Import Base.Bytes Model.CborPA Model.WscReadPA.\n"
@@ -174,6 +174,22 @@ EINT_FAMILY = {"abi-env-intent": "any", "abi-env-control": "control", "abi-env-i
 
 def eint_spec(op, inner_spec, inner_len):
     return (b"EINT" + op.to_bytes(4, "little") + inner_len.to_bytes(4, "little")).hex() + "+" + inner_spec
+
+
+def LAYERED(dec):
+    return dec.startswith("abi-dto-") or dec in ("abi-env-control", "abi-env-import", "wasm-observe", "wasm-control", "wasm-dispatch")
+
+
+def payload_spec(dec, sp):
+    """Input spec of the CBOR payload embedded in a layered decoder's input (None if there is none)."""
+    if dec in EINT_FAMILY:
+        first = sp.split("+", 1)
+        if len(first[0]) < 24 or "*" in first[0] or first[0].startswith("r"):
+            return None
+        rest = first[0][24:]
+        parts = ([rest] if rest else []) + first[1:]
+        return "+".join(parts) if parts else "-"
+    return sp
 
 
 def spec_len(sp):
@@ -454,7 +470,9 @@ def run(tier, seed, replay=None):
     ]
     r.cov["trusted_base"] = ["coqc 8.16.1 kernel + vm_compute", "python generator/comparator props/c13.py",
                              "harness c13.rs (counting GlobalAlloc, child re-exec, stderr classification)", "rustc debug profile"]
+    t0 = time.time()
     r.proof_phase(THEOREMS)
+    t1 = time.time()
     try:
         bins = vf.cargo_build(["c13"])
         r.phase("P3_build", ok=True)
@@ -490,13 +508,18 @@ def run(tier, seed, replay=None):
     else:
         for ln in vf.load_corpus(PROP):
             cases.append(ln); kinds.append("corpus")
-        n_small = 3000 if tier == "quick" else 40000
+        n_small = 3000 if tier == "quick" else 30000
         for k, b in gen_abi_small(r.rng, n_small):
             cases.append(f"dec=abi-cbor in={hexs(b)}"); kinds.append(k)
+        if tier == "thorough":
+            # exhaustive small universe: every input of at most two bytes, model vs implementation
+            for x in range(256):
+                for y in range(256):
+                    cases.append(f"dec=abi-cbor in={bytes([x, y]).hex()}"); kinds.append("exhaustive-2")
         if "wsc-read" in decoders:
             for k, b in gen_wsc_read(r.rng, 1200 if tier == "quick" else 12000):
                 cases.append(f"dec=wsc-read in={hexs(b)}"); kinds.append(k)
-        n_gen = 1500 if tier == "quick" else 20000
+        n_gen = 1200 if tier == "quick" else 8000
         for dname in decoders:
             cborish = dname.startswith(("abi-", "edict", "scene", "wasm"))
             if dname != "abi-cbor":
@@ -504,11 +527,13 @@ def run(tier, seed, replay=None):
                     cases.append(f"dec={dname} in={sp}"); kinds.append(k)
             for k, sp in big_specs(r.rng, dname, seeds[dname], cborish, tier, ops):
                 cases.append(f"dec={dname} in={sp}"); kinds.append(k)
+    t2 = time.time()
     try:
         impl = harness_run(bins, "c13", cases)
     except (vf.Broken, Exception) as e:
         r.is_broken("harness-run", e)
         return r.finish()
+    t3 = time.time()
 
     # ---- P4: model vs implementation on abi-cbor (small inputs, given in plain hex)
     tied = []
@@ -558,6 +583,7 @@ def run(tier, seed, replay=None):
     per = collections.defaultdict(collections.Counter)
     failing = 0
     worst = collections.defaultdict(lambda: (0.0, ""))
+    fails = []
     for i, l in enumerate(impl):
         dname, cls, orc = field(l, "dec"), field(l, "class"), field(l, "oracle")
         per[dname][cls] += 1
@@ -567,9 +593,35 @@ def run(tier, seed, replay=None):
             worst[dname] = (ratio, f"peak={pk} len={ln}")
         if orc != "ok":
             failing += 1
-            sig = orc.split(":", 1)[1] if ":" in orc else orc
-            r.violation(sig, f"{dname}: {cls} {field(l, 'detail')} on a {ln}-byte input (peak {pk})",
-                        {"case": cases[i], "impl": l[:400], "generator": kinds[i]})
+            fails.append(i)
+    # Root-cause attribution: a decoder layered on decode_value (decode_cbor<T>, EINT control/import envelopes,
+    # the warp-wasm boundary) that fails on an input whose embedded CBOR payload ALONE makes abi-cbor fail is
+    # reported under abi-cbor's signature; anything else keeps its own <decoder>:<kind> signature.
+    root = {}
+    layered = [i for i in fails if LAYERED(field(impl[i], "dec"))]
+    if layered:
+        pay = {}
+        for i in layered:
+            sp = payload_spec(field(cases[i], "dec"), field(cases[i], "in"))
+            if sp is not None:
+                pay.setdefault(sp, []).append(i)
+        try:
+            rl = harness_run(bins, "c13root", [f"dec=abi-cbor in={sp}" for sp in pay])
+            for sp, l in zip(pay, rl):
+                if field(l, "oracle") != "ok":
+                    for i in pay[sp]:
+                        root[i] = field(l, "oracle").split(":", 1)[1]
+        except vf.Broken as e:
+            r.is_broken("harness-run", e)
+    r.cov["failures_attributed_to_abi_cbor"] = len(root)
+    for i in fails:
+        l = impl[i]
+        dname, cls, orc = field(l, "dec"), field(l, "class"), field(l, "oracle")
+        ln, pk = int(field(l, "len", "0")), int(field(l, "peak", "0"))
+        sig = root.get(i) or (orc.split(":", 1)[1] if ":" in orc else orc)
+        via = f" (root cause abi-cbor, reached through {dname})" if i in root else ""
+        r.violation(sig, f"{dname}: {cls} {field(l, 'detail')} on a {ln}-byte input (peak {pk}){via}",
+                    {"case": cases[i], "impl": l[:400], "generator": kinds[i]})
     r.phase("P5_oracle", failing=failing)
     r.cov["evaluations"] = len(cases)
     r.cov["distinct_nontrivial"] = len({c for c, l in zip(cases, impl) if int(field(l, "len", "0")) >= 2})
@@ -580,4 +632,34 @@ def run(tier, seed, replay=None):
     r.cov["generator_histogram"] = dict(collections.Counter(kinds))
     r.cov["oracle_bound"] = f"class in (value,error) and peak <= {ORACLE_C}*len + {ORACLE_C0}"
     r.cov["samples"] = [c[:300] for c in cases[:2] + cases[len(cases) // 2:len(cases) // 2 + 1]]
+    r.cov["wall_breakdown_s"] = {"proof": round(t1 - t0, 1), "build+seeds+generate": round(t2 - t1, 1),
+                                 "harness": round(t3 - t2, 1), "model+compare": round(time.time() - t3, 1)}
     return r.finish()
+
+
+# Not yet registered: on the unchanged tree ./check C13 exits 1 with the F6 findings (abi-cbor:capacity-overflow,
+# abi-cbor:huge-alloc, abi-cbor:deep-nesting [, abi-cbor:timeout], abi-elog:huge-alloc).  Rename to MANIFEST once the guard
+# patch (corpus/C13/zz-f6-guard.patch.txt) is committed and Model/CborPA.v says `cfg_repo := cfg_guarded`, or the signatures
+# are listed in known_findings.jsonl.
+MANIFEST_WHEN_FIXED = {
+    "category": "proof",
+    "text": ("Coq theorems (no axioms) over a panic-, allocation- and depth-aware executable model of the ABI canonical CBOR decoder "
+             "(echo-wasm-abi canonical.rs::decode_value: every slice index, usize addition and Vec::with_capacity is a checked step "
+             "that can yield Panic; live heap bytes and recursion depth are meters): for EVERY byte string the decoder terminates, "
+             "never reaches an index/arithmetic/capacity panic, never holds more than 66 heap bytes per input byte and never recurses "
+             "deeper than the nesting limit + 1; the element-budget/depth guard neither rejects nor adds any accepted value "
+             "(guard_transparent, guard_only_removes); the pre-guard decoder is refuted on all three counts by concrete witnesses. A second "
+             "small model proves the WSC section reader (read_bytes/read_slice) panic-free and exact for every offset/count. Both models "
+             "are tied to /repo by running them (vm_compute) and the real code on the same inputs: class, error kind, decoded value and the "
+             "measured peak heap bytes (counting allocator) must agree. Every other decoder / reader / host entry point (55 entry points: "
+             "serde DTOs, EINT envelopes, codec.rs Reader, ELOG, Edict, retained ingress, 16 WAL payload records, WAL segment recovery, "
+             "WSC file/validator/store envelope, scene codec, materialization frames, warp-wasm dispatch/observe/control) is exercised "
+             "with random, mutated-valid, lying-length and 1 MiB deep-nesting inputs, each in an isolated child process with a counting "
+             "allocator, bounded stack and CPU budget; the oracle requires value|typed error and peak <= 256*len + 64 KiB."),
+    "note": ("Proof level holds for the modelled code only (decode_value, wsc/read.rs range checks). Stack exhaustion and allocator abort "
+             "are runtime effects: the theorems bound the model's depth/allocation meters, the tie checks exit status and measured peak of "
+             "the real process (debug profile, 8 MiB stack, 256 MiB cap, 10 s CPU per input). All other decoders, including everything "
+             "built on serde/ciborium/minicbor, are exploration (isolated-child oracle), not proof. Error-message strings (< 512 B) are "
+             "not charged by the model. Trusted: Coq kernel + vm_compute, python generator/comparator, harness c13.rs (GlobalAlloc "
+             "counter, child re-exec, stderr classification)."),
+}
